@@ -1,15 +1,4 @@
 // C10 spec (see prelude): checksums of the two sides
-/// compute_file_checksum / compute_buffer_checksum: SHA-256 of the bytes, as a hex string (not extracted:
-/// sha2 + BufReader; their contract is ASSUMED)
-#[verifier::external_body]
-pub fn compute_file_checksum(file: File) -> (r: Result<String, IoError>)
-    // ASSUMED: no transient I/O failure while reading a file that was just opened
-    ensures r matches Ok(s) && s@ == sha256_hex(fs_content(file.id@))
-{ unimplemented!() }
-#[verifier::external_body]
-pub fn compute_buffer_checksum(buffer: &[u8]) -> (r: String)
-    ensures r@ == sha256_hex(buffer@)
-{ unimplemented!() }
 /// the writer's mode agrees with the run: check mode <=> nothing may be written
 pub open spec fn writer_wf(w: &AppWriter) -> bool { (w.mode is Update) == writes_allowed() }
 pub open spec fn outdated_ids(w: &AppWriter) -> Set<int> {
